@@ -187,6 +187,16 @@ package rueidis
 //@   ensures [C15 error-reply-surfaces] (m.typ == '-' || m.typ == '!') ==> (result != nil && typeis(result, *RedisError))
 //@   ensures [C15 other-replies-are-not-errors] (m.typ != '_' && m.typ != '-' && m.typ != '!') ==> result == nil
 
+// scriptbool(m, v): v is the truth value of a script's boolean answer m — Lua true arrives as integer 1 (RESP2) or
+// boolean true (RESP3), Lua false as a null reply
+//@ specfn scriptbool(m RedisMessage, v bool) bool = (m.typ == ':' ==> (v <==> m.intlen != 0)) && (m.typ == '#' ==> (v <==> m.intlen == 1)) && (m.typ == '_' ==> !v)
+// failed(r): the result carries a transport error, an error reply or a null reply — exactly when Error() is non-nil
+//@ specfn failed(r RedisResult) bool = r.err != nil || r.val.typ == '_' || r.val.typ == '-' || r.val.typ == '!'
+//@ func RedisResult.Error
+//@   safety C15
+//@   ensures [C15 result-error-iff-failed] (err == nil) <==> !failed(r)
+//@   ensures [C15 transport-error-first] r.err != nil ==> err == r.err
+
 // ---------------------------------------------------------------------------------------------
 // C17 — cache serialization. unmarshalView / CacheUnmarshalView are total: for EVERY buffer (not only truncations of
 // marshalled values) they return a value or ErrCacheUnmarshal and never panic or allocate more than the buffer
@@ -244,6 +254,7 @@ package rueidis
 //@ func BinaryString
 //@   safety C45
 //@   ensures [C45 same-bytes] len(result) == len(bs) && (forall k int :: 0 <= k && k < len(bs) ==> result[k] == bs[k])
+//@   ensures [C45 same-string] result == string(bs)
 
 //@ func VectorString32
 //@   safety C45
